@@ -13,6 +13,11 @@ RULE = ("real nsqd daemons (in-process; max-msg-size 64, max-body-size 320, max-
         "parameters, unparsable queries, bodies declared / chunked / with malformed chunk framing, wrong methods, against a generated "
         "topic/channel state (0-3 topics, 0-3 channels each, paused flags, depths 0-3, ephemeral names) rebuilt for every case; the state is read "
         "through GET /stats?format=json before and after at the exact quiescence condition of the topic pumps; "
+        "(names) every endpoint that takes a topic or channel, with names of exactly 1, 63, 64 (valid) and 65 (invalid) bytes and 53 / 54 (valid) / 55 "
+        "(invalid) bytes + #ephemeral, as the topic and as the channel, on existing and on new objects, plus /pub, /pub?defer, text and binary /mpub "
+        "under each of those names with their TCP twins (tags topic-len= / channel-len=); (config) GET / PUT /config/:opt with every log level in "
+        "every case, refused levels, JSON and non-JSON address lists, empty / max-msg-size / oversize values, unknown and read-only options, "
+        "/debug/setblockrate with numeric and non-numeric rates; "
         "(pub) /pub (bodies 0,1,2,17,62..66,100,321 bytes; defer strings at every boundary incl. the F1 witnesses, signs, junk, 1-22 random digits), "
         "text /mpub (arbitrary newline layouts, lines 0..66 bytes, bodies around 320 bytes, >63 tiny lines, only blank lines), binary /mpub "
         "(counts k-1,k,k+1,0,-1,64,2^20,2^31-1,-2^31; sizes 0,-1,n+1,2^31-1; truncated; trailing bytes; padded past the body limit), each "
@@ -49,7 +54,11 @@ LEVEL_TEXT = ("Machine-checked proof (Coq 8.16.1) over an executable model of ns
               "and obeys the documented token table; /pub == PUB, /pub?defer=D == DPUB D for every digit string, binary /mpub == MPUB on any payload "
               "(declared: same size field; chunked: the max-body-size prefix), text /mpub has an exact acceptance rule and == MPUB of its non-empty lines "
               "wherever both framings fit; each admin endpoint's 200 is exactly its effect on exactly the named object, any other answer is no effect, and no "
-              "other topic changes. The route table, router settings, every http_api.Err literal, boolParams, the option names and the argument-error tokens "
+              "other topic changes; every error token answered is TRUE of the request and the state (INVALID_* => that argument is present and not a "
+              "valid name / defer / option / value, MISSING_ARG_* => absent, *_NOT_FOUND => not in the state, INVALID_REQUEST => unparsable query or "
+              "unreadable body; closed token set), a well-formed POST to an admin endpoint is 200 EXACTLY when its documented precondition holds, and a "
+              "/pub within every limit is accepted - the judge's monitor evaluates the same clauses (token_justified, admin_precondition, "
+              "pub_must_accept) on what the real daemon answered, over HTTP and (E_BAD_TOPIC) over TCP. The route table, router settings, every http_api.Err literal, boolParams, the option names and the argument-error tokens "
               "are regenerated from the source on every run and tied to the model by proof obligations; the model is tied to the running code by "
               "differential correspondence including consumption over TCP.")
 LEVEL_NOTE = ("Trusted: Coq kernel + vm_compute; gotables; net/http, url.ParseQuery, encoding/json as model inputs; the hand-written router model (validated "
